@@ -68,6 +68,8 @@ class ProtoRun {
     bool ccs_emitted[2] = { false, false };
     uint64_t probe_next = 0;               // next probe sequence number (all probe kinds)
     uint64_t seal_seq_at_death[2] = { 0, 0 };
+    std::function<void(MxEndpoint &, const char *)> on_api;   // installed on both endpoints of the measured connection
+    int split = 0;                         // TLS: feed every unit in 1+split pieces
 
     explicit ProtoRun(const Plan &p);
     ~ProtoRun();
